@@ -260,6 +260,18 @@ def crafted(run):
     pair('many', 'numpy(40, 30, 4) 1200 traces', (40, 30, 4), 32, (4, 4, -1), run.seed + 72,
          ilines=100 + np.arange(40), xlines=7 + 3 * np.arange(30), samples=4.0 * np.arange(4))
     pair('brick', 'numpy(13, 10, 40) b(4, 8, 32) with a sibling', (13, 10, 40), 32, (4, 8, 32), run.seed + 73)
+    # two 2-D lines of the same geometry (trace groups of 4)
+    import segyio
+    paths = []
+    for j in (0, 1):
+        sgy, q = os.path.join(d, f'line{j}.sgy'), os.path.join(d, f'line{j}.sgz')
+        data = inputs.cube((11, 40), run.seed + 74 + 1000 * j, 'noise' if j else None)
+        inputs.write_segy_traces(sgy, data, 4.0 * np.arange(40), [{segyio.TraceField.CDP: t + 1 + 100 * j, segyio.TraceField.CDP_X: 10 * t + j} for t in range(11)])
+        writers.segy_to_sgz(sgy, q, 16, (1, 4, -1))
+        paths.append(q)
+    fc = session.FileCase(paths[0], label='segy2d(11, 40) b(1, 4, -1) with a sibling')
+    fc.sibling = paths[1]
+    out.append(fc)
     return out
 
 
